@@ -14,3 +14,5 @@ pub mod cmap;
 pub mod glyf;
 pub mod type2;
 pub mod cff;
+pub mod container;
+pub mod cffgen;
